@@ -2,6 +2,10 @@ import FeatModel.Lemmas.C08Sweeps
 import FeatModel.Lemmas.C08IluApply
 import FeatModel.Lemmas.C08History
 import FeatModel.Lemmas.C08Linear
+import FeatModel.Lemmas.C08Poly
+import FeatModel.Lemmas.C08Blocked
+import FeatModel.Lemmas.C08IluFactor
+import FeatModel.Lemmas.C08IluCopy
 /-!
 # C08 — preconditioners apply exactly their defining linear operator (property theorems)
 
@@ -12,9 +16,10 @@ correspondence run ties them to `SORPrecond`, `SSORPrecond`, `JacobiPrecond`, `I
 `Csr.entry i j`; `sortedDiag` is the documented precondition (square, sorted rows, stored diagonal); the correction
 filter is `filterCor` (unit filter: listed components are set to zero).
 
-Not proved here (observed by the correspondence run and the independent oracle only): the numeric ILU factorisation
-satisfies `L·U = A` on the level-p pattern (`C08.IluFactorStatement`), the symbolic factorisation produces the
-level-p pattern, the polynomial preconditioner equals the Neumann sum, and everything about the BCSR variants.
+Not proved here (observed by the correspondence run and the independent oracle only): that `factorizeSymbolic`
+produces the textbook level-p pattern (and a well-shaped, sorted structure), that the index-faithful merge-pointer loops
+`copyDataCsr` / `factorizeNumeric` equal their find-based formulations (compared by the driver on every case), and the
+BCSR Jacobi / ILU / matrix variants (blocked SOR / SSOR are proved over an arbitrary block ring).
 -/
 open Finset FeatModel.LA FeatModel.Solver
 
@@ -73,6 +78,56 @@ theorem C08.diagonal_spec {α : Type} [Field α] (fidx : List Nat) (d x : Array 
   unfold diagonalApply compProd
   rw [filterCor_getD, getD_ofFn _ i hi]
 
+/-- polynomial preconditioner: `apply` never aborts on a square well-formed matrix and returns the filtered truncated
+    Neumann series `F Σ_{k ≤ m} (I - M⁻¹ F A)^k M⁻¹ x` with `M⁻¹ = diag(_inv_diag)` (`= ω D⁻¹` after `init_numeric`,
+    see `C08.jacobi_spec` / `extractDiag_getD`); `neumannTerm k` is the `k`-th term of the series. -/
+theorem C08.polynomial_spec {α : Type} [Field α] (tiny : α → Bool) (ht0 : tiny 0 = true) (m : Nat) (fidx : List Nat)
+    (A : Csr α) (hA : A.wf = true) (hsq : A.rows = A.cols) (invD x : Array α) :
+    ∃ r, polyApply tiny m fidx A invD x = some r ∧ r.size = A.rows ∧
+      ∀ i, i < A.rows →
+        r.getD i 0 = if i ∈ fidx then 0 else ∑ k ∈ range (m + 1), neumannTerm fidx A invD x k i :=
+  polyApply_spec tiny ht0 m fidx A hA hsq invD x
+
+/-- square-blocked (BCSR) SOR, blocks in an arbitrary (non-commutative) ring `R` acting on a module `V`, scalars in a
+    field `K`: the generic blocked sweep (`Blk.sorApply`, run by `drv_c08` at bs×bs rational matrices against the real
+    BCSR code) returns the filtered solution of `(D/ω + L) y = x`, where `inv` only has to be a right inverse on the
+    diagonal blocks. -/
+theorem C08.sor_spec_blocked {K R V : Type} [Field K] [Ring R] [AddCommGroup V] [Module K V] [Module R V]
+    [SMulCommClass K R V] (inv : R → R) (ω : K) (hω : ω ≠ 0) (fidx : List Nat) (A : Csr R) (hA : sortedDiag A = true)
+    (hinv : ∀ i, i < A.rows → A.entry i i * inv (A.entry i i) = 1) (x : Array V) (hx : x.size = A.rows) :
+    ∃ y : Array V, y.size = A.rows ∧
+      (∀ i, i < A.rows →
+        A.entry i i • (ω⁻¹ • y.getD i 0) + ∑ j ∈ range i, A.entry i j • y.getD j 0 = x.getD i 0) ∧
+      ∀ i, (Blk.sorApply (Blk.modOps inv) ω fidx A x).getD i 0 = if i ∈ fidx then 0 else y.getD i 0 := by
+  obtain ⟨h1, h2⟩ := Blk.sorSweep_spec inv ω hω A hA hinv x hx
+  exact ⟨_, h1, h2, fun i => Blk.filterCor_getD inv fidx _ i⟩
+
+/-- square-blocked (BCSR) SSOR over a non-commutative block ring: `(D + ωL) y = x`, `(D + ωU) z = D y`, and the
+    output is the filtered `ω(2-ω) z`. -/
+theorem C08.ssor_spec_blocked {K R V : Type} [Field K] [Ring R] [AddCommGroup V] [Module K V] [Module R V]
+    [SMulCommClass K R V] (inv : R → R) (ω : K) (fidx : List Nat) (A : Csr R) (hA : sortedDiag A = true)
+    (hinv : ∀ i, i < A.rows → A.entry i i * inv (A.entry i i) = 1) (x : Array V) (hx : x.size = A.rows) :
+    ∃ y z : Array V, y.size = A.rows ∧ z.size = A.rows ∧
+      (∀ i, i < A.rows →
+        A.entry i i • y.getD i 0 + ω • ∑ j ∈ range i, A.entry i j • y.getD j 0 = x.getD i 0) ∧
+      (∀ i, i < A.rows →
+        A.entry i i • z.getD i 0 + ω • ∑ j ∈ Ico (i + 1) A.rows, A.entry i j • z.getD j 0
+          = A.entry i i • y.getD i 0) ∧
+      ∀ i, i < A.rows → (Blk.ssorApply (Blk.modOps inv) ω fidx A x).getD i 0
+          = if i ∈ fidx then 0 else (ω * (2 - ω)) • z.getD i 0 := by
+  obtain ⟨h1, h2⟩ := Blk.ssorFwd_spec inv ω A hA hinv x hx
+  obtain ⟨h3, h4⟩ := Blk.ssorBwd_spec inv ω A hA hinv _ h1
+  refine ⟨_, _, h1, h3, h2, h4, ?_⟩
+  intro i hi
+  have hm : ∀ (r : Array V) (f : V → V) (j : Nat), j < r.size → (r.map f).getD j 0 = f (r.getD j 0) := by
+    intro r f j hj
+    simp [Array.getD, hj]
+  unfold Blk.ssorApply Blk.ssorSweep
+  rw [Blk.filterCor_getD, hm _ _ _ (by rw [h3]; exact hi)]
+  have : (1 + 1 : K) = 2 := by norm_num
+  rw [this]
+  rfl
+
 /-- ILU, the two triangular solves of `apply` on the STORED factors, for any pattern of a well-shaped symbolic
     factorisation: `z = iluSolve …` satisfies `(D+U) z = y` and `(I+L) y = b`, i.e. `z = ((I+L)(D+U))⁻¹ b` with
     `D = diag(1 / dataD)`; the previous content `x0` of the output vector is irrelevant. -/
@@ -120,19 +175,71 @@ theorem C08.ssor_linear {α : Type} [Field α] (ω : α) (A : Csr α) (hA : sort
       = a * (ssorSweep ω A x).getD i 0 + b * (ssorSweep ω A x').getD i 0 :=
   ssorSweep_linear ω A hA hd a b x x' hx hx' i hi
 
-/-- FULL statement of the ILU factor clause (NOT proved; observed on every correspondence case by the independent
-    oracle on the implementation's factor arrays): the stored factors reproduce `A` on the symbolic pattern. -/
+/-- ILU(p) numeric factorisation: `L·U = A` on the symbolic pattern, for every size, every (well-shaped, sorted)
+    pattern — level 0, level p or anything else — and every matrix with sorted rows and stored diagonal:
+    with `f = factorize_numeric_il_du (copy_data_csr A)`, `D = 1 / f.dataD` and non-zero pivots,
+    `((I+L)(D+U))_{ic} = A_{ic}` for every `(i, c)` of the pattern.
+    `_partial`: stated for the find-based formulations `copyDataCsrS` / `factorizeNumericS` of the two loops (the
+    merge pointers `ra`, `pl`, `pu` of the C++ replaced by a column search); `drv_c08` runs them side by side with the
+    index-faithful `copyDataCsr` / `factorizeNumeric` on every case and reports `MODEL-SPLIT` on any difference, and it
+    evaluates the hypotheses `wf`, `sorted` on the output of `factorizeSymbolic` — these two links (equality of the
+    formulations, shape of the symbolic output) are observed by the correspondence run, not proved. -/
+theorem C08.ilu_factor_partial {α : Type} [Field α] (s : IluSym) (hs : s.wf = true) (hso : s.sorted = true)
+    (A : Csr α) (hA : sortedDiag A = true) (hn : s.n = A.rows)
+    (hpiv : ∀ i, i < s.n → (factorizeNumericS s (copyDataCsrS s A)).dataD.getD i 0 ≠ 0)
+    (i c : Nat) (hi : i < s.n) (hc : c < s.n) (hp : s.inPattern i c) :
+    ∑ k ∈ range (min i c), (s.matL (factorizeNumericS s (copyDataCsrS s A))).entry i k
+        * (s.matU (factorizeNumericS s (copyDataCsrS s A))).entry k c
+      + (if c < i then (s.matL (factorizeNumericS s (copyDataCsrS s A))).entry i c
+            * (1 / (factorizeNumericS s (copyDataCsrS s A)).dataD.getD c 0)
+         else if c = i then 1 / (factorizeNumericS s (copyDataCsrS s A)).dataD.getD i 0
+         else (s.matU (factorizeNumericS s (copyDataCsrS s A))).entry i c)
+      = A.entry i c := by
+  obtain ⟨z1, z2, z3⟩ := copyDataCsrS_sizes s A
+  rw [factorizeNumericS_spec s hs hso (copyDataCsrS s A) z1 z2 z3 hpiv i c hi hc hp]
+  have w := IluSym.WFP.of_bool s hs hso
+  unfold IluSym.dense
+  rcases hp with h | ⟨k, k1, k2, h⟩ | ⟨k, k1, k2, h⟩
+  · subst h
+    rw [if_neg (Nat.lt_irrefl _), if_pos rfl]
+    exact copyDataCsrS_D s A hA hn c hi
+  · have hlt : c < i := h ▸ w.lowL i hi k k1 k2
+    rw [if_pos hlt, ← h]
+    exact copyDataCsrS_L s hs hso A hA hn i hi k k1 k2
+  · have hgt : i < c := h ▸ w.uppU i hi k k1 k2
+    rw [if_neg (by omega), if_neg (by omega), ← h]
+    exact copyDataCsrS_U s hs hso A hA hn i hi k k1 k2
+
+/-- complete factorisation: if the pattern is full (every `(i, c)` is in it), `(I+L)(D+U) = A` everywhere, i.e. the
+    ILU solve of `C08.ilu_solve_spec` is the exact inverse -/
+theorem C08.ilu_complete_partial {α : Type} [Field α] (s : IluSym) (hs : s.wf = true) (hso : s.sorted = true)
+    (A : Csr α) (hA : sortedDiag A = true) (hn : s.n = A.rows)
+    (hfull : ∀ i c, i < s.n → c < s.n → s.inPattern i c)
+    (hpiv : ∀ i, i < s.n → (factorizeNumericS s (copyDataCsrS s A)).dataD.getD i 0 ≠ 0)
+    (i c : Nat) (hi : i < s.n) (hc : c < s.n) :
+    ∑ k ∈ range (min i c), (s.matL (factorizeNumericS s (copyDataCsrS s A))).entry i k
+        * (s.matU (factorizeNumericS s (copyDataCsrS s A))).entry k c
+      + (if c < i then (s.matL (factorizeNumericS s (copyDataCsrS s A))).entry i c
+            * (1 / (factorizeNumericS s (copyDataCsrS s A)).dataD.getD c 0)
+         else if c = i then 1 / (factorizeNumericS s (copyDataCsrS s A)).dataD.getD i 0
+         else (s.matU (factorizeNumericS s (copyDataCsrS s A))).entry i c)
+      = A.entry i c :=
+  C08.ilu_factor_partial s hs hso A hA hn hpiv i c hi hc (hfull i c hi hc)
+
+/-- FULL statement of the ILU factor clause about the index-faithful model functions (`factorizeSymbolic`,
+    `copyDataCsr`, `factorizeNumeric`).  Not proved in this form; `C08.ilu_factor_partial` proves it for the find-based
+    formulations under the shape hypotheses, the remaining links are checked on every correspondence case. -/
 def C08.IluFactorStatement : Prop :=
   ∀ (p : Int) (A : Csr Rat), sortedDiag A = true →
     ∀ s0, setStructCsr A.rows A.rowPtr A.colInd = some s0 →
       let s := factorizeSymbolic s0 p
       let f := factorizeNumeric s (copyDataCsr s A)
       (∀ i, i < s.n → f.dataD.getD i 0 ≠ 0) →
-      ∀ i j, i < s.n → j < s.n → (j = i ∨ (s.matL f).entry i j ≠ 0 ∨ (s.matU f).entry i j ≠ 0 ∨ A.entry i j ≠ 0) →
-        (if j < i then (s.matL f).entry i j else 0) * (1 / f.dataD.getD j 0)
-          + ∑ k ∈ range (min i j), (s.matL f).entry i k * (s.matU f).entry k j
-          + (if i = j then 1 / f.dataD.getD i 0 else if i < j then (s.matU f).entry i j else 0)
-        = A.entry i j
+      ∀ i c, i < s.n → c < s.n → s.inPattern i c →
+        ∑ k ∈ range (min i c), (s.matL f).entry i k * (s.matU f).entry k c
+          + (if c < i then (s.matL f).entry i c * (1 / f.dataD.getD c 0)
+             else if c = i then 1 / f.dataD.getD i 0 else (s.matU f).entry i c)
+        = A.entry i c
 
 /-- the hypotheses of the sweep theorems are satisfiable by a non-trivial matrix (tridiagonal 3×3) -/
 example : sortedDiag (α := Rat)
